@@ -260,6 +260,7 @@ func cmdCheck(args []string) int {
 		items = append(items, &workItem{o: o, script: b.String()})
 	}
 	items = append(items, stableFieldObligations(w)...)
+	items = append(items, ifaceEquivObligations(w)...)
 	for _, k := range ps.Functions {
 		items = append(items, noEffectObligations(w, k)...)
 	}
@@ -816,6 +817,32 @@ func noEffectObligations(w *World, key string) []*workItem {
 			}
 			out = append(out, &workItem{o: o})
 		}
+	}
+	return out
+}
+
+// ifaceEquivObligations: `ifaceequiv A B` - interface types A and B have the same method set, so a type
+// assertion to A succeeds exactly for the dynamic types that implement B.
+func ifaceEquivObligations(w *World) []*workItem {
+	var out []*workItem
+	for _, pr := range w.CS.IfaceEquivs {
+		e := &Enc{w: w, st: NewSortTable(ModeInt)}
+		a, b := e.resolveType(pr[0]), e.resolveType(pr[1])
+		name := "static#iface-equiv:" + pr[0] + "=" + pr[1]
+		o := &Obligation{Fn: "static", Kind: "iface-equiv", Name: name, Group: name, Static: true, Src: "ifaceequiv " + pr[0] + " " + pr[1]}
+		if a == nil || b == nil {
+			o.Model = "type not found (package not loaded for this property)"
+			continue
+		}
+		ia, ok1 := a.Underlying().(*types.Interface)
+		ib, ok2 := b.Underlying().(*types.Interface)
+		if ok1 && ok2 {
+			o.StaticOK = types.Identical(ia, ib) || (types.Implements(ia, ib) && types.Implements(ib, ia))
+		}
+		if !o.StaticOK {
+			o.Model = fmt.Sprintf("%s and %s do not have the same method set", pr[0], pr[1])
+		}
+		out = append(out, &workItem{o: o})
 	}
 	return out
 }
